@@ -4,6 +4,7 @@ import WM.Lemmas.NumericSplit
 import WM.Lemmas.NumericField
 import WM.Lemmas.NumericFloat
 import WM.Lemmas.NumericUnguarded
+import WM.Lemmas.NumericMembership
 /-! C13 — numeric and date fields order and range-match exactly. -/
 namespace WM.C13
 open WM.Numeric WM.NumericSpec
@@ -571,5 +572,158 @@ example : decimalToInt 2 ((-5 : Rat) / 100) = -5 ∧ unprepareDecimal 2 (-5) = (
   · have := (decimal 2).1 (-5)
     simpa [unprepareDecimal] using this
   · simp [unprepareDecimal]
+
+/-! ### round 2: numeric membership of floats, Decimal bounds, DATETIME ranges -/
+
+/-- The float range query against **numeric** membership (Python's `<`/`<=` on doubles), full
+    statement: every pattern, every bound.  It is *false* (see `range_query_float_numeric_full_false`):
+    the encoding orders patterns by the IEEE total order, so it tells `-0.0` from `+0.0` and gives
+    NaNs a place. -/
+def range_query_float_numeric_full : Prop :=
+  ∀ (step : Nat) (start end_ : Option Nat) (sx ex : Bool) (b : Nat),
+    (∀ a, start = some a → a < 2 ^ 64) → (∀ a, end_ = some a → a < 2 ^ 64) → b < 2 ^ 64 →
+    ∀ subs ts sb, compileFloat true step start end_ sx ex = .ok subs →
+      floatToSortable b true = .ok sb → indexTerms 8 step sb.toNat = .ok ts →
+      (matchesDoc subs ts = true ↔ inIntervalNum start end_ sx ex b = true)
+
+/-- **Float range query, numeric reading** (partial: the hypotheses exclude exactly the cases in
+    which the total order and Python's comparison differ): if neither the document's value nor a
+    bound is a NaN, and no bound is a zero of the opposite sign to a zero value, the document is
+    matched iff `start <(=) value <(=) end` holds numerically. -/
+theorem range_query_float_numeric_partial (step : Nat) (start end_ : Option Nat) (sx ex : Bool)
+    (b : Nat) (hs : ∀ a, start = some a → a < 2 ^ 64) (he : ∀ a, end_ = some a → a < 2 ^ 64)
+    (hb : b < 2 ^ 64) (hnan : isNaN b = false)
+    (hs' : ∀ a, start = some a → isNaN a = false ∧ zeroClash a b = false)
+    (he' : ∀ a, end_ = some a → isNaN a = false ∧ zeroClash a b = false) :
+    ∃ subs ts sb, compileFloat true step start end_ sx ex = .ok subs ∧
+      floatToSortable b true = .ok sb ∧ indexTerms 8 step sb.toNat = .ok ts ∧
+      (matchesDoc subs ts = true ↔ inIntervalNum start end_ sx ex b = true) := by
+  obtain ⟨subs, ts, sb, h1, h2, h3, h4⟩ := range_query_float step start end_ sx ex b hs he hb
+  refine ⟨subs, ts, sb, h1, h2, h3, ?_⟩
+  rw [h4, inInterval_total_eq_num start end_ sx ex b hnan hs' he']
+
+/-- Hypotheses satisfiable: `[-1.5 TO 2.5}` with the value 1.0; and the excluded region is real:
+    `-0.0` against the bound `+0.0` is a clash. -/
+example : isNaN 0x3ff0000000000000 = false ∧ zeroClash 0xbff8000000000000 0x3ff0000000000000 = false ∧
+    inIntervalNum (some 0xbff8000000000000) (some 0x4004000000000000) false true 0x3ff0000000000000 = true ∧
+    zeroClash 0 0x8000000000000000 = true := by decide
+
+/-- **The numeric reading fails on signed zeros and NaNs** (concrete, kernel-checked): a document
+    holding `-0.0` is not matched by `[0.0 TO None]` although `-0.0 >= 0.0`; a document holding a
+    (positive, quiet) NaN is matched by `[1.0 TO None]` although `nan >= 1.0` is false. -/
+theorem range_query_float_numeric_full_false : ¬ range_query_float_numeric_full := by
+  intro h
+  -- the -0.0 document against [0.0 TO None]
+  obtain ⟨subs, ts, sb, h1, h2, h3, h4⟩ :=
+    range_query_float 4 (some 0) none false false 0x8000000000000000
+      (by intro a ha; cases ha; decide) (by intro a ha; cases ha) (by decide)
+  have hn := h 4 (some 0) none false false 0x8000000000000000
+    (by intro a ha; cases ha; decide) (by intro a ha; cases ha) (by decide) subs ts sb h1 h2 h3
+  have e1 : inInterval totalLt (some 0) none false false 0x8000000000000000 = false := by decide
+  have e2 : inIntervalNum (some 0) none false false 0x8000000000000000 = true := by decide
+  rw [e1] at h4
+  rw [e2] at hn
+  have := h4.1 (hn.2 rfl)
+  exact absurd this (by decide)
+
+/-- The NaN half of the same fact, stated on its own. -/
+example : inInterval totalLt (some 0x3ff0000000000000) none false false 0x7ff8000000000000 = true ∧
+    inIntervalNum (some 0x3ff0000000000000) none false false 0x7ff8000000000000 = false := by decide
+
+/-- **`prepare_number` on Decimals is monotone** on arbitrary rationals (truncation towards zero
+    never reverses the order of two values or bounds). -/
+theorem decimal_monotone (dc : Nat) (p q : Rat) (h : p ≤ q) :
+    decimalToInt dc p ≤ decimalToInt dc q := by
+  rw [decimalToInt_eq, decimalToInt_eq]
+  exact trunc_mono _ _ (Rat.mul_le_mul_of_nonneg_right h (Rat.le_of_lt (decScale_pos dc)))
+
+/-- A range bound on a Decimal field is exact for every stored value, full statement: comparing
+    the stored integers with the prepared (truncated) bound is the same as comparing the decoded
+    Decimals with the bound itself.  False when the bound has more than `dc` places
+    (see `decimal_bound_full_false`). -/
+def decimal_bound_full : Prop :=
+  ∀ (dc : Nat) (q : Rat) (x : Int),
+    (decimalToInt dc q ≤ x ↔ q ≤ unprepareDecimal dc x) ∧
+    (x ≤ decimalToInt dc q ↔ unprepareDecimal dc x ≤ q)
+
+/-- **Decimal range bounds** (partial): for a bound `q` with *any* number of places, the truncated
+    bound is exact as an **upper** bound when `q ≥ 0` and as a **lower** bound when `q ≤ 0`; and it
+    is exact on both sides when `q` has at most `dc` places (`q = m / 10^dc`).  What is missing is a
+    positive lower bound / negative upper bound with more than `dc` places: truncation towards zero
+    moves it outwards. -/
+theorem decimal_bound_partial (dc : Nat) (q : Rat) (x : Int) :
+    (0 ≤ q → (x ≤ decimalToInt dc q ↔ unprepareDecimal dc x ≤ q)) ∧
+    (q ≤ 0 → (decimalToInt dc q ≤ x ↔ q ≤ unprepareDecimal dc x)) ∧
+    (∀ m : Int, q = unprepareDecimal dc m →
+      (decimalToInt dc q ≤ x ↔ q ≤ unprepareDecimal dc x) ∧
+      (x ≤ decimalToInt dc q ↔ unprepareDecimal dc x ≤ q)) := by
+  refine ⟨?_, ?_, ?_⟩
+  · intro h
+    have h0 : 0 ≤ q * decScale dc := Rat.mul_nonneg h (Rat.le_of_lt (decScale_pos dc))
+    rw [decimalToInt_eq, trunc_of_nonneg _ h0, Rat.le_floor_iff, unprep_le_iff]
+  · intro h
+    have h0 : q * decScale dc ≤ 0 := by
+      have := Rat.mul_le_mul_of_nonneg_right h (Rat.le_of_lt (decScale_pos dc))
+      rwa [Rat.zero_mul] at this
+    rw [decimalToInt_eq, trunc_of_nonpos _ h0, Rat.ceil_le_iff, le_unprep_iff]
+  · intro m hm
+    subst hm
+    rw [(decimal dc).1 m]
+    constructor
+    · rw [le_unprep_iff]
+      show m ≤ x ↔ (m : Rat) / decScale dc * decScale dc ≤ x
+      rw [Rat.div_mul_cancel (decScale_ne dc)]
+      exact Rat.intCast_le_intCast.symm
+    · rw [unprep_le_iff]
+      show x ≤ m ↔ (x : Rat) ≤ (m : Rat) / decScale dc * decScale dc
+      rw [Rat.div_mul_cancel (decScale_ne dc)]
+      exact Rat.intCast_le_intCast.symm
+
+/-- `[0.005 TO …]` on a field with two decimal places admits the stored value `0.00`. -/
+theorem decimal_bound_full_false : ¬ decimal_bound_full := by
+  intro h
+  have h1 := (h 2 ((5 : Rat) / 1000) 0).1
+  have e : decimalToInt 2 ((5 : Rat) / 1000) = 0 := by decide +kernel
+  rw [e] at h1
+  have h2 : (5 : Rat) / 1000 ≤ unprepareDecimal 2 0 := h1.1 (Int.le_refl 0)
+  exact absurd h2 (by decide +kernel)
+
+/-- **`DateRange` on a DATETIME field** (64-bit signed, `shift_step = 8`): the composition of
+    `datetime` with `range_query_int`.  For datetimes given as normalised
+    `(days, seconds, microseconds)` triples whose microsecond counts lie in the field's domain, the
+    compiled query matches a document iff its datetime lies in the interval in the order of
+    datetimes (lexicographic on the triple). -/
+theorem range_query_datetime (start end_ : Option TD) (sx ex : Bool) (t : TD)
+    (hs : ∀ a, start = some a → a.normal ∧ inDomain 64 true (tdToUsecs a))
+    (he : ∀ a, end_ = some a → a.normal ∧ inDomain 64 true (tdToUsecs a))
+    (ht : t.normal ∧ inDomain 64 true (tdToUsecs t)) :
+    ∃ subs ts, compileInt 8 true 8 (start.map tdToUsecs) (end_.map tdToUsecs) sx ex = .ok subs ∧
+      indexTerms 8 8 (toSortableInt 64 true (tdToUsecs t)).toNat = .ok ts ∧
+      (matchesDoc subs ts = true ↔ inInterval tdLt start end_ sx ex t = true) := by
+  have hs' : ∀ a, start.map tdToUsecs = some a → inDomain (8 * 8) true a := by
+    intro a ha
+    cases start with
+    | none => simp at ha
+    | some a0 =>
+      simp only [Option.map_some, Option.some.injEq] at ha
+      subst ha; exact (hs a0 rfl).2
+  have he' : ∀ a, end_.map tdToUsecs = some a → inDomain (8 * 8) true a := by
+    intro a ha
+    cases end_ with
+    | none => simp at ha
+    | some a0 =>
+      simp only [Option.map_some, Option.some.injEq] at ha
+      subst ha; exact (he a0 rfl).2
+  obtain ⟨subs, ts, h1, h2, h3⟩ :=
+    range_query_int 8 8 (by decide) (by decide) true _ _ sx ex (tdToUsecs t) hs' he' ht.2
+  refine ⟨subs, ts, h1, h2, ?_⟩
+  rw [h3, inInterval_enc tdLt tdToUsecs TD.normal tdLt_iff start end_ sx ex t ht.1
+    (fun a ha => (hs a ha).1) (fun a ha => (he a ha).1)]
+
+/-- Hypotheses satisfiable: `datetime.min` and a day later, one microsecond in between. -/
+example : (⟨0, 0, 0⟩ : TD).normal ∧ inDomain 64 true (tdToUsecs ⟨1, 0, 0⟩) ∧
+    inInterval tdLt (some ⟨0, 0, 0⟩) (some ⟨1, 0, 0⟩) true true ⟨0, 0, 1⟩ = true ∧
+    inInterval tdLt (some ⟨0, 0, 0⟩) (some ⟨1, 0, 0⟩) true true ⟨1, 0, 0⟩ = false := by
+  refine ⟨by simp [TD.normal], by decide, by decide, by decide⟩
 
 end WM.C13
